@@ -18,13 +18,16 @@ CONSTANTS Calls,        \* the call alphabet: set of [m |-> method, a |-> <<ints
           InitBoards,   \* initial board states
           StartConnected, \* BOOLEAN: begin with an open, verified port (skip the handshake)
           MinVer,       \* minimum supported firmware <<a, b, c>>
-          FixStatus, FixNick, FixQC, FixConnect    \* TRUE = the repaired code; FALSE = the pinned behaviour (self-tests)
+          MaxReplug,    \* how often the environment may swap the device (only while the port is closed)
+          FixStatus, FixNick, FixQC, FixConnect, FixStale    \* TRUE = the repaired code; FALSE = the pinned behaviour (self-tests)
 
 (* ---------------- state ---------------- *)
 VARIABLES port,           \* "open" | "none"
           err,            \* NoErr or <<call number, kind>> : the identity of the recorded message
           name,           \* the object's cached nickname ("" = None)
-          board, dev,     \* device state; device kind (fixed for the history)
+          board, dev,     \* device state; kind of the device currently on the bus (the environment may replace it while the port is closed)
+          ver,            \* what the object remembers of the last identification: "none" | "old" | "ok"
+          replugs,
           ncalls, nfaults,
           call, prog, pc, \* current call, its remaining steps, control point
           deadAtEntry,    \* was the object dead when this call began
@@ -34,8 +37,8 @@ VARIABLES port,           \* "open" | "none"
           wr, got, ret,   \* per-call observables: lines written, successful query replies, return value
           errAtEntry,
           hist            \* the script: one record per call with the environment's choices (for replay)
-vars == <<port, err, name, board, dev, ncalls, nfaults, call, prog, pc, deadAtEntry, empties, rep, failed, wr, got, ret, errAtEntry, hist>>
-core == <<port, err, name, board, dev, ncalls, nfaults, call, prog, pc, deadAtEntry, empties, rep, failed, wr, got, ret, errAtEntry>>
+vars == <<port, err, name, board, dev, ver, replugs, ncalls, nfaults, call, prog, pc, deadAtEntry, empties, rep, failed, wr, got, ret, errAtEntry, hist>>
+core == <<port, err, name, board, dev, ver, replugs, ncalls, nfaults, call, prog, pc, deadAtEntry, empties, rep, failed, wr, got, ret, errAtEntry>>
 
 NoCall == [m |-> "none", a |-> <<>>, s |-> ""]
 NoRep == [kind |-> "none", r |-> NoReply]
@@ -45,7 +48,8 @@ Env(e) == hist' = [hist EXCEPT ![Len(hist)].env = Append(@, e)]                 
 
 Supported(d) == d \in {"ebb_ok", "ebb_late"}
 Init ==
-  /\ dev \in Devices /\ board \in InitBoards
+  /\ dev \in Devices /\ board \in InitBoards /\ replugs = 0
+  /\ ver = IF StartConnected THEN "ok" ELSE "none"
   /\ port = IF StartConnected THEN "open" ELSE "none"
   /\ (StartConnected => Supported(dev))
   /\ err = NoErr /\ name = "" /\ ncalls = 0 /\ nfaults = 0
@@ -57,10 +61,10 @@ BeginCall(c) ==
   /\ ncalls' = ncalls + 1 /\ call' = c /\ prog' = Program(c)
   /\ deadAtEntry' = Dead /\ errAtEntry' = err
   /\ wr' = <<>> /\ got' = <<>> /\ ret' = Void /\ failed' = FALSE /\ empties' = 0 /\ rep' = NoRep
-  /\ hist' = Append(hist, [m |-> c.m, a |-> c.a, s |-> c.s, env |-> <<>>, obs |-> <<>>,
+  /\ hist' = Append(hist, [m |-> c.m, a |-> c.a, s |-> c.s, env |-> <<>>, obs |-> <<>>, dv |-> dev,
                             b0 |-> [nick |-> board.nick, m1 |-> board.m1, m2 |-> board.m2, res |-> board.res, volt |-> board.volt]])
   /\ pc' = CASE c.m = "connect" -> "connect" [] c.m = "disconnect" -> "disconnect" [] c.m = "record_error" -> "recerr" [] OTHER -> "entry"
-  /\ UNCHANGED <<port, err, name, board, dev, nfaults>>
+  /\ UNCHANGED <<port, err, name, board, dev, ver, replugs, nfaults>>
 
 \* the method's own entry guard (every request method has one): dead => fail value, nothing else happens
 Entry ==
@@ -69,7 +73,7 @@ Entry ==
      THEN /\ pc' = "ret" /\ failed' = TRUE
           /\ ret' = IF call.m = "var_read_int32" THEN <<"bool", FALSE>> ELSE CHOOSE v \in FailSet(call.m) : TRUE
      ELSE pc' = "step" /\ UNCHANGED <<failed, ret>>
-  /\ UNCHANGED <<port, err, name, board, dev, ncalls, nfaults, call, prog, deadAtEntry, empties, rep, wr, got, errAtEntry, hist>>
+  /\ UNCHANGED <<port, err, name, board, dev, ver, replugs, ncalls, nfaults, call, prog, deadAtEntry, empties, rep, wr, got, errAtEntry, hist>>
 
 \* dispatch the next primitive: its guard is the guard at the top of command() / query()
 Step ==
@@ -87,7 +91,7 @@ Step ==
                     /\ prog' = (IF call.m = "motors_enable" /\ st.n = "QE" THEN <<>> ELSE Tail(prog))    \* motors_enable returns when QE gave None
                     /\ failed' = TRUE /\ pc' = "step" /\ UNCHANGED <<empties, rep>>
           ELSE pc' = "write" /\ empties' = 0 /\ rep' = NoRep /\ UNCHANGED <<prog, failed>>
-  /\ UNCHANGED <<port, err, name, board, dev, ncalls, nfaults, call, deadAtEntry, wr, got, ret, errAtEntry, hist>>
+  /\ UNCHANGED <<port, err, name, board, dev, ver, replugs, ncalls, nfaults, call, deadAtEntry, wr, got, ret, errAtEntry, hist>>
 
 \* exactly one write per primitive; the board acts on what it receives
 Write ==
@@ -101,7 +105,7 @@ Write ==
         /\ IF st.k = "raw" THEN pc' = "rawfail" /\ UNCHANGED <<err, failed>>          \* reboot/bootload: caught, False, nothing recorded
            ELSE RecordError("usb") /\ failed' = TRUE /\ pc' = "after"
         /\ UNCHANGED <<wr, board>>
-  /\ UNCHANGED <<port, name, dev, ncalls, call, prog, deadAtEntry, empties, rep, got, ret, errAtEntry>>
+  /\ UNCHANGED <<port, name, dev, ver, replugs, ncalls, call, prog, deadAtEntry, empties, rep, got, ret, errAtEntry>>
 
 \* reads: a burst of e empty reads, then a line of some kind, or an exception; e > RetryMax is a timeout
 Kinds == {"conf", "err", "errnamed", "wrong", "trunc"}
@@ -124,7 +128,7 @@ Read ==
             \/ /\ nfaults < MaxFaults /\ nfaults' = nfaults + 1          \* readline() raises
                /\ empties' = e /\ rep' = [kind |-> "raise", r |-> NoReply] /\ pc' = "validate"
                /\ Env([e |-> e, o |-> "raise", r |-> NoReply])
-  /\ UNCHANGED <<port, err, name, board, dev, ncalls, call, prog, deadAtEntry, failed, wr, got, ret, errAtEntry>>
+  /\ UNCHANGED <<port, err, name, board, dev, ver, replugs, ncalls, call, prog, deadAtEntry, failed, wr, got, ret, errAtEntry>>
 
 \* the success test of the primitive: reply begins with the request's name and contains no "Err:"
 Validate ==
@@ -137,7 +141,7 @@ Validate ==
              \* pinned query_statusbyte: a mismatched reply with a hex tail still yields a number
              /\ got' = IF ~FixStatus /\ st.k = "poll" /\ rep.kind = "wrong" THEN Append(got, rep.r) ELSE got
      /\ pc' = "after"
-  /\ UNCHANGED <<port, name, board, dev, ncalls, nfaults, call, prog, deadAtEntry, empties, rep, wr, ret, errAtEntry, hist>>
+  /\ UNCHANGED <<port, name, board, dev, ver, replugs, ncalls, nfaults, call, prog, deadAtEntry, empties, rep, wr, ret, errAtEntry, hist>>
 
 \* control returns to the method after a primitive
 After ==
@@ -147,12 +151,12 @@ After ==
      IF ~FixQC /\ call.m \in {"query_voltage", "query_current"} /\ failed THEN pc' = "raised" /\ UNCHANGED prog
      ELSE IF call.m = "motors_enable" /\ st.n = "QE" /\ failed THEN prog' = <<>> /\ pc' = "step"      \* motor_res is None: return
      ELSE prog' = Tail(prog) /\ pc' = "step"
-  /\ UNCHANGED <<port, err, name, board, dev, ncalls, nfaults, call, deadAtEntry, empties, rep, failed, wr, got, ret, errAtEntry, hist>>
+  /\ UNCHANGED <<port, err, name, board, dev, ver, replugs, ncalls, nfaults, call, deadAtEntry, empties, rep, failed, wr, got, ret, errAtEntry, hist>>
 
 RawDone == /\ pc = "rawdone" /\ port' = "none" /\ pc' = "ret" /\ ret' = <<"bool", TRUE>>       \* write ok: disconnect(), True
-           /\ UNCHANGED <<err, name, board, dev, ncalls, nfaults, call, prog, deadAtEntry, empties, rep, failed, wr, got, errAtEntry, hist>>
+           /\ UNCHANGED <<err, name, board, dev, ver, replugs, ncalls, nfaults, call, prog, deadAtEntry, empties, rep, failed, wr, got, errAtEntry, hist>>
 RawFail == /\ pc = "rawfail" /\ pc' = "ret" /\ ret' = <<"bool", FALSE>> /\ failed' = TRUE
-           /\ UNCHANGED <<port, err, name, board, dev, ncalls, nfaults, call, prog, deadAtEntry, empties, rep, wr, got, errAtEntry, hist>>
+           /\ UNCHANGED <<port, err, name, board, dev, ver, replugs, ncalls, nfaults, call, prog, deadAtEntry, empties, rep, wr, got, errAtEntry, hist>>
 
 \* the method computes its return value
 Finish ==
@@ -168,41 +172,55 @@ Finish ==
      /\ name' = IF m = "write_nickname" /\ (okAll \/ ~FixNick) THEN call.s
                 ELSE IF m \in {"query_nickname", "connect"} /\ okAll /\ got # <<>> /\ got[Len(got)].s # "" THEN got[Len(got)].s ELSE name
   /\ pc' = "ret"
-  /\ UNCHANGED <<port, err, board, dev, ncalls, nfaults, call, prog, deadAtEntry, empties, rep, failed, wr, got, errAtEntry, hist>>
+  /\ UNCHANGED <<port, err, board, dev, ver, replugs, ncalls, nfaults, call, prog, deadAtEntry, empties, rep, failed, wr, got, errAtEntry, hist>>
 
 \* the call returns; what an observer of the object saw of it is appended to the script
 EndCall == /\ pc = "ret" /\ pc' = "idle"
            /\ hist' = [hist EXCEPT ![Len(hist)].obs = <<[wr |-> wr, ret |-> ret, errset |-> err # NoErr, open |-> port = "open", failed |-> failed]>>]
-           /\ UNCHANGED <<port, err, name, board, dev, ncalls, nfaults, call, prog, deadAtEntry, empties, rep, failed, wr, got, ret, errAtEntry>>
+           /\ UNCHANGED <<port, err, name, board, dev, ver, replugs, ncalls, nfaults, call, prog, deadAtEntry, empties, rep, failed, wr, got, ret, errAtEntry>>
 
 RecErr == /\ pc = "recerr" /\ RecordError("user") /\ pc' = "ret"
-          /\ UNCHANGED <<port, name, board, dev, ncalls, nfaults, call, prog, deadAtEntry, empties, rep, failed, wr, got, ret, errAtEntry, hist>>
+          /\ UNCHANGED <<port, name, board, dev, ver, replugs, ncalls, nfaults, call, prog, deadAtEntry, empties, rep, failed, wr, got, ret, errAtEntry, hist>>
 Disconnect == /\ pc = "disconnect" /\ port' = "none" /\ pc' = "ret"
-              /\ UNCHANGED <<err, name, board, dev, ncalls, nfaults, call, prog, deadAtEntry, empties, rep, failed, wr, got, ret, errAtEntry, hist>>
+              /\ UNCHANGED <<err, name, board, dev, ver, replugs, ncalls, nfaults, call, prog, deadAtEntry, empties, rep, failed, wr, got, ret, errAtEntry, hist>>
 
 (* ---------------- connect(): resolve, open, probe (twice), verify, version gate, CU,10,1, nickname ---------------- *)
 VerOf(d) == IF d = "ebb_old" THEN <<2, 8, 1>> ELSE <<3, 0, 3>>
 VerGE(v, t) == v[1] > t[1] \/ (v[1] = t[1] /\ (v[2] > t[2] \/ (v[2] = t[2] /\ v[3] >= t[3])))
 Connect ==
   /\ pc = "connect"
-  /\ IF port = "open" THEN pc' = "ret" /\ ret' = <<"bool", TRUE>> /\ UNCHANGED <<port, err, wr, prog, failed>>     \* already connected
+  /\ IF port = "open" THEN pc' = "ret" /\ ret' = <<"bool", TRUE>> /\ UNCHANGED <<port, err, wr, prog, failed, ver>>     \* already connected
      ELSE CASE dev = "absent" ->            \* not in the enumeration
-                 /\ RecordError("notfound") /\ ret' = <<"bool", FALSE>> /\ pc' = "ret" /\ failed' = TRUE /\ UNCHANGED <<port, wr, prog>>
+                 /\ RecordError("notfound") /\ ret' = <<"bool", FALSE>> /\ pc' = "ret" /\ failed' = TRUE /\ UNCHANGED <<port, wr, prog, ver>>
             [] dev = "unopenable" ->        \* serial.Serial() raises
-                 /\ RecordError("usbtest") /\ ret' = <<"bool", FALSE>> /\ pc' = "ret" /\ failed' = TRUE /\ UNCHANGED <<port, wr, prog>>
+                 /\ RecordError("usbtest") /\ ret' = <<"bool", FALSE>> /\ pc' = "ret" /\ failed' = TRUE /\ UNCHANGED <<port, wr, prog, ver>>
             [] dev = "raise_on_probe" ->    \* the first probe's read raises: error, port closed
-                 /\ RecordError("usbtest") /\ wr' = <<"v">> /\ ret' = <<"bool", FALSE>> /\ pc' = "ret" /\ failed' = TRUE /\ UNCHANGED <<port, prog>>
+                 /\ RecordError("usbtest") /\ wr' = <<"v">> /\ ret' = <<"bool", FALSE>> /\ pc' = "ret" /\ failed' = TRUE /\ UNCHANGED <<port, prog, ver>>
             [] dev \in {"non_ebb", "silent"} ->     \* two probes, neither verified
-                 /\ RecordError("noconnect") /\ wr' = <<"v", "v">> /\ ret' = <<"bool", FALSE>> /\ pc' = "ret" /\ failed' = TRUE /\ UNCHANGED <<port, prog>>
-            [] dev \in {"ebb_old", "ebb_noversion", "ebb_in_text"} ->    \* "EBB" seen, but firmware below the minimum / no version at all / a foreign banner containing the letters
-                 /\ RecordError("oldfw") /\ wr' = <<"v">> /\ ret' = <<"bool", FALSE>> /\ pc' = "ret" /\ failed' = TRUE
+                 /\ RecordError("noconnect") /\ wr' = <<"v", "v">> /\ ret' = <<"bool", FALSE>> /\ pc' = "ret" /\ failed' = TRUE /\ UNCHANGED <<port, prog, ver>>
+            [] dev = "ebb_old" ->           \* verified, firmware below the minimum
+                 /\ RecordError("oldfw") /\ wr' = <<"v">> /\ ret' = <<"bool", FALSE>> /\ pc' = "ret" /\ failed' = TRUE /\ ver' = "old"
                  /\ port' = (IF FixConnect THEN "none" ELSE "open") /\ UNCHANGED prog
+            [] dev \in {"ebb_noversion", "ebb_in_text"} /\ (FixStale \/ ver # "ok") ->
+                 \* "EBB" seen but no version in the reply: nothing known about the firmware -> unsupported
+                 /\ RecordError("oldfw") /\ wr' = <<"v">> /\ ret' = <<"bool", FALSE>> /\ pc' = "ret" /\ failed' = TRUE
+                 /\ ver' = (IF FixStale THEN "none" ELSE ver) /\ port' = "none" /\ UNCHANGED prog
             [] OTHER ->                      \* ebb_ok (first probe) / ebb_late (second probe): CU,10,1 raw, then the nickname query
+                                             \* (pinned, FixStale = FALSE: also a version-less "EBB" reply when a version from an EARLIER board is still cached)
                  /\ wr' = (IF dev = "ebb_late" THEN <<"v", "v">> ELSE <<"v">>) \o <<"CU,10,1">>
+                 /\ ver' = (IF Supported(dev) THEN "ok" ELSE ver)
                  /\ port' = "open" /\ prog' = <<Stp("qry", "QT", "QT", <<>>, "")>> /\ pc' = "step" /\ UNCHANGED <<err, ret, failed>>
-  /\ UNCHANGED <<name, board, dev, ncalls, nfaults, call, deadAtEntry, empties, rep, got, errAtEntry, hist>>
+  /\ UNCHANGED <<name, board, dev, replugs, ncalls, nfaults, call, deadAtEntry, empties, rep, got, errAtEntry, hist>>
 
-Next == (\E c \in Calls : BeginCall(c)) \/ Entry \/ Step \/ Write \/ Read \/ Validate \/ After \/ RawDone \/ RawFail \/ Finish \/ EndCall
+\* the environment swaps the device on the bus (only while the object holds no port); recorded in the script
+Replug(d) ==
+  /\ pc = "idle" /\ port = "none" /\ replugs < MaxReplug /\ d # dev
+  /\ dev' = d /\ replugs' = replugs + 1 /\ wr' = <<>>          \* nothing has been written to the new device yet
+  /\ hist' = Append(hist, [m |-> "<replug>", a |-> <<>>, s |-> d, env |-> <<>>, obs |-> <<>>, dv |-> dev,
+                            b0 |-> [nick |-> board.nick, m1 |-> board.m1, m2 |-> board.m2, res |-> board.res, volt |-> board.volt]])
+  /\ UNCHANGED <<port, err, name, board, ver, ncalls, nfaults, call, prog, pc, deadAtEntry, empties, rep, failed, got, ret, errAtEntry>>
+
+Next == (\E d \in Devices : Replug(d)) \/ (\E c \in Calls : BeginCall(c)) \/ Entry \/ Step \/ Write \/ Read \/ Validate \/ After \/ RawDone \/ RawFail \/ Finish \/ EndCall
         \/ RecErr \/ Disconnect \/ Connect
 Spec == Init /\ [][Next]_vars
 
